@@ -105,6 +105,13 @@ func (g *dgen) structDef() *vh.TSpec {
 	used := []int{}
 	for i := 0; i < n; i++ {
 		idx := rapid.IntRange(0, 30).Draw(g.t, "idx")
+		switch rapid.IntRange(0, 19).Draw(g.t, "idxclass") {
+		case 0, 1, 2:
+			// word-size and varint boundaries of the index itself
+			idx = []int{31, 32, 33, 62, 63, 64, 65, 70, 127, 128, 129, 255, 256, 1000, 2047, 2048}[rapid.IntRange(0, 15).Draw(g.t, "idxb")]
+		case 3:
+			idx = []int{8191, 8192, 16383, 16384, 65535, 65536, 70000}[rapid.IntRange(0, 6).Draw(g.t, "idxbig")]
+		}
 		for contains(used, idx) {
 			idx++
 		}
